@@ -900,7 +900,7 @@ VARIANTS = [
 
 META = {
     "design_ref": "DESIGN.md section 3, C10",
-    "technique": "path-condition + def-use analysis of the scheduler (guarded single entry, pair coverage, whole-transaction insertion, descending in-order application)",
+    "technique": "path-condition + def-use analysis of the scheduler (guarded single entry, pair coverage, whole-transaction insertion, descending in-order application); refusal analysis of the single-rewrite applier (no ignore test / whitespace-only drop on the partly rewritten text)",
     "level_text": ("Decides on the current source the structural clauses that make scheduling transactional: insertion "
                    "into the schedule only under 'no overlap found and no ignore comment', overlap tested against all "
                    "later rewrites of the transaction and everything scheduled, the whole unfiltered transaction "
